@@ -63,7 +63,8 @@ type runtime struct {
 	debugger     func(*Otto)
 	random       func() float64
 	labels       []string
-	halting      bool // an interrupt function panicked: no try statement catches that
+	halting      bool        // an interrupt function panicked: no try statement catches that panic
+	haltValue    interface{} // what it panicked with
 	stackLimit   int
 	traceLimit   int
 	lck          sync.Mutex
@@ -124,11 +125,15 @@ func (rt *runtime) tryCatchEvaluate(inner func() Value) (tryValue Value, isExcep
 	// other = Something that changes flow (return, break, continue) that is not a throw
 	// Otherwise, some sort of unknown panic happened, we'll just propagate it.
 	defer func() {
-		if rt.halting {
-			// The panic of an interrupt function is on its way to the caller of Run.
-			return
-		}
 		if caught := recover(); caught != nil {
+			if rt.halting {
+				if samePanic(caught, rt.haltValue) {
+					// The panic of an interrupt function is on its way to the caller of Run.
+					panic(caught)
+				}
+				// Some Go caller has dealt with that one; this is another panic.
+				rt.halting, rt.haltValue = false, nil
+			}
 			if excep, ok := caught.(*exception); ok {
 				caught = excep.eject()
 			}
@@ -153,10 +158,23 @@ func (rt *runtime) tryCatchEvaluate(inner func() Value) (tryValue Value, isExcep
 // end the running script (see "Halting Problem" in the README): the script's try statements must
 // not catch it, or `for (;;) { try { ... } catch (e) {} }` could never be stopped.
 func (rt *runtime) interrupt(function func()) {
-	halting := true
-	defer func() { rt.halting = halting }()
+	defer func() {
+		if caught := recover(); caught != nil {
+			rt.halting, rt.haltValue = true, caught
+			panic(caught)
+		}
+	}()
 	function()
-	halting = false
+}
+
+// samePanic reports whether two recovered panic values are one and the same.
+func samePanic(a, b interface{}) (same bool) {
+	defer func() {
+		if recover() != nil {
+			same = true // values of a type that cannot be compared: no way to tell them apart
+		}
+	}()
+	return a == b
 }
 
 func (rt *runtime) toObject(value Value) *object {
